@@ -35,6 +35,8 @@ def shapes(tier):
         S('no-examples', ['L', 'P0'], [dict(value=['P0'], doc=None, table=None)], [], 1),
         # two tables whose headers may list the same names in a different order / only partly
         S('two-tables-two-cols', ['P0', 'L', 'P1'], [dict(value=['P1', 'P0'], doc=None, table=None)], [(2, 1), (2, 1)], 2),
+        # each placeholder occurs in ONE kind of place only: the name, a step text, a doc string, a step-table cell
+        S('one-place-each', ['L', 'P0'], [dict(value=['L', 'P1'], doc=['P2', 'L'], table=[[['L'], ['P3']]])], [(2, 1)], 4),
     ]
     if tier == 'thorough':
         out += [S('three-ph', ['P0', 'P1', 'P2'], [dict(value=['P2', 'L', 'P0'], doc=['P1'], table=[[['P0', 'P1']], [['P2', 'L']]])], [(2, 1), (2, 2)], 3),
@@ -232,6 +234,18 @@ def compare(ex, sh, tag, got, exp, in_desc):
     if exp is None:
         ok = len(got) == 1 and got[0][0] == 'ok' and {k: got[0][1][k] for k in ('name', 'steps', 'tags')} == {k: in_desc[k] for k in ('name', 'steps', 'tags')}
         errs['scenario-without-examples-unchanged'] = None if ok else 'a scenario without Examples came back as %s' % (got,)
+        return errs
+    if any(x[0] == 'err' for x in exp):
+        # some placeholder names no column: the feature becomes the FIRST error of the list (how many Ok / Err entries
+        # surround it is not observable), and that error has to name an unknown placeholder
+        unknown = set().union(*[x[1] for x in exp if x[0] == 'err'])
+        gerrs = [g for g in got if g[0] == 'err']
+        if not gerrs:
+            errs['unknown-placeholder-is-an-error-naming-it'] = 'unknown placeholder(s) %s were expanded silently: %s' % (sorted(unknown), [g[1]['name'] for g in got][:2])
+        elif gerrs[0][1] not in unknown:
+            errs['unknown-placeholder-is-an-error-naming-it'] = 'the error names %s, the unknown placeholders are %s' % (gerrs[0][1], sorted(unknown))
+        else:
+            errs['unknown-placeholder-is-an-error-naming-it'] = None
         return errs
     e = None
     if len(got) != len(exp):
